@@ -8,9 +8,11 @@ import Lcapy.Spec.TwoPort
 namespace Lcapy.Spec
 variable {K : Type} [Add K] [Mul K] [Neg K] [Sub K]
 
-/-- a one-port (relation R on (v, i), i into its + terminal) connected from port-1 + to port-2 +,
-    the − terminals joined -/
-def SeriesElem (R : K → K → Prop) (p : Port K) : Prop := p.I2 = -p.I1 ∧ R (p.V1 - p.V2) p.I1
+/-- a one-port (relation R on (v, i), i into its + terminal) connected between port-1 + and port-2 +, the −
+    terminals joined.  Its + terminal is at the OUTPUT side -- the orientation of the V2b source in the
+    docstring diagram of `TwoPortBModel`, and what `Series._net_make` draws (`OP._net_make(netlist, n3, n1)`):
+    v = V2 − V1 and the current into its + terminal is I2 = −I1. -/
+def SeriesElem (R : K → K → Prop) (p : Port K) : Prop := p.I2 = -p.I1 ∧ R (p.V2 - p.V1) (-p.I1)
 
 /-- a one-port connected across both ports (+ terminals joined, − terminals joined) -/
 def ShuntElem (R : K → K → Prop) (p : Port K) : Prop := p.V2 = p.V1 ∧ R p.V1 (p.I1 + p.I2)
